@@ -90,6 +90,20 @@ def selftest():
     expect("argument named like another parameter (keyword): flagged", bool(common.argument_name_mismatches(P.func(L + "swapped_keyword"))))
     expect("argument named like another parameter (positional): flagged", len(common.argument_name_mismatches(P.func(L + "swapped_positional"))) == 2)
     expect("arguments in place: silent", not common.argument_name_mismatches(P.func(L + "straight")))
+    good, badc = P.cls("GoodChild"), P.cls("BadChild")
+    gi, bi = good.methods["__init__"], badc.methods["__init__"]
+    expect("ignored constructor parameter: flagged", common.ignored_parameters(ctx, bi) == ["unused"])
+    expect("all constructor parameters read: silent", not common.ignored_parameters(ctx, gi))
+    expect("attribute written under the wrong spelling (reader uses _flag): flagged", [a for _, a in common.write_only_attributes(ctx, bi)] == ["flag"])
+    expect("attributes with readers: silent", not common.write_only_attributes(ctx, gi))
+    expect("caller's container modified by a constructor: flagged", bool(common.caller_container_mutations(bi)))
+    expect("copy modified: silent", not common.caller_container_mutations(gi))
+    expect("option at hand not handed on: flagged", [o for _, o in common.omitted_options(bi)] == ["mode"])
+    expect("option handed on: silent", not common.omitted_options(gi))
+    expect("option popped before **kwargs are forwarded: flagged", bool(common.consumed_before_forwarding(bi)))
+    expect("**kwargs forwarded untouched: silent", not common.consumed_before_forwarding(gi))
+    expect("early return in front of an unconditional base call: flagged", bool(common.bypassed_base_calls(ctx, badc)))
+    expect("base call reached on every path: silent", not common.bypassed_base_calls(ctx, good))
     # the whole-package rewrites produce programs that parse and are stable under a second application of reformat
     from .audit import transforms
     with open(os.path.join(FX, "fxpkg", "lints.py")) as fh:
